@@ -413,16 +413,16 @@ func (cc *Chaincode) noBatchHandler(
 
 	fn, args := stub.GetFunctionAndParameters()
 
+	method := cc.Router().Method(fn)
+	if cc.Router().IsQuery(method) {
+		stub = newQueryStub(stub)
+	}
+
 	span.AddEvent("validating sender")
 	sender, invocationArgs, _, err := cc.validateAndExtractInvocationContext(stub, fn, args)
 	if err != nil {
 		span.SetStatus(codes.Error, "validating sender failed")
 		return shim.Error(err.Error())
-	}
-
-	method := cc.Router().Method(fn)
-	if cc.Router().IsQuery(method) {
-		stub = newQueryStub(stub)
 	}
 
 	span.AddEvent("validating arguments")
